@@ -16,6 +16,7 @@ LOOP_REVIEWED = {
 def run(check, ctx):
     repo = ctx.repo
     foreign_handles(check, repo)
+    buffer_request_flags(check, repo)
     # ---- raw pointers taken with .get() must not be held across a re-binding of the owner -------------
     nget = 0
     for mname, mod in sorted(repo.modules.items()):
@@ -154,3 +155,34 @@ def foreign_handles(check, repo):
                          expected="two handles given to one native routine come from objects of the same curve")
     if n < 5:
         raise AnalysisError("only %d native calls with a foreign handle found in _point.py (confirmed: 5)" % n)
+
+
+def buffer_request_flags(check, repo):
+    """c_uint8_ptr (ctypes back-end) turns a buffer object into (address, length) and the native code reads `length`
+    consecutive bytes from there: the buffer must have been requested in a form that guarantees contiguity.  Any flag
+    set that contains PyBUF_STRIDES (0x10) lets a strided or reversed memoryview through."""
+    mod = repo.module("Crypto.Util._raw_api")
+    consts = {}
+    for n in ast.walk(mod.tree):
+        if isinstance(n, ast.Assign) and len(n.targets) == 1 and isinstance(n.targets[0], ast.Name) and \
+                isinstance(n.value, ast.Constant) and isinstance(n.value.value, int):
+            consts.setdefault(n.targets[0].id, []).append(n.value.value)
+    sites = []
+    for n in ast.walk(mod.tree):
+        if isinstance(n, ast.Call) and isinstance(n.func, ast.Name) and n.func.id == "_PyObject_GetBuffer" and len(n.args) >= 3:
+            a = n.args[2]
+            if isinstance(a, ast.Constant):
+                vals = [a.value]
+            elif isinstance(a, ast.Name):
+                vals = consts.get(a.id)
+            else:
+                vals = None
+            sites.append((n.lineno, norm(a), vals))
+    if not sites:
+        raise AnalysisError("anchor vanished: PyObject_GetBuffer call in Crypto.Util._raw_api")
+    for (ln, txt, vals) in sites:
+        ok = vals is not None and len(set(vals)) == 1 and isinstance(vals[0], int) and not (vals[0] & 0x10) and not (vals[0] & 0x100)
+        check.ob("F", "F|buffer-request|%d" % len([x for x in sites if x[0] <= ln]), ok, mod.path, ln,
+                 extracted="PyObject_GetBuffer(obj, &view, %s) with %s = %s" % (txt, txt, "?" if not vals else "/".join(hex(v) for v in vals)),
+                 expected="a request without PyBUF_STRIDES / PyBUF_INDIRECT (PyBUF_SIMPLE, possibly with WRITABLE/FORMAT/ND): the exporter "
+                          "must then hand out contiguous memory or refuse with BufferError")
